@@ -426,17 +426,22 @@ impl RealLiteral {
         let (r, remainder): (Vec<_>, Vec<_>) = a
             .chars()
             .filter(|c| *c != '_')
-            .partition(|c| c.is_ascii_digit() || *c == '.' || *c == 'E' || *c == 'e' || *c == '-');
+            .partition(|c| {
+                c.is_ascii_digit() || *c == '.' || *c == 'E' || *c == 'e' || *c == '-' || *c == '+'
+            });
         if !remainder.is_empty() {
             return Err("Non-real characters");
         }
         let r: String = r.into_iter().collect();
-        f64::from_str(r.as_str())
-            .map(|value| RealLiteral {
-                value,
-                data_type: tn,
-            })
-            .map_err(|e| "real")
+        let value = f64::from_str(r.as_str()).map_err(|e| "real")?;
+        if value.is_infinite() {
+            // The magnitude is too large to represent
+            return Err("real out of range");
+        }
+        Ok(RealLiteral {
+            value,
+            data_type: tn,
+        })
     }
 }
 
